@@ -226,9 +226,25 @@ func runC16(c *CheckCtx) {
 	c.runJobs(jobs, func(o *Obligation) bool {
 		return o.Kind == "post" || o.Kind == "assert" || strings.HasPrefix(o.Kind, "frame")
 	})
+	// the grammar itself against the statement (bounded, spec level)
+	maxLen := 6
+	if c.tier == "thorough" {
+		maxLen = 7
+	}
+	n, fails := c16Lemma(maxLen)
+	c.extra["spec_lemma"] = map[string]any{
+		"what":       "bounded check of the SPECIFICATION (not of the code): the grammar of result classes transcribed from rfStep/rlC agrees with the statement's characterisation (completable by closers => EOF class of the innermost closer; complete => accepted; unmatched/surplus closer or several expressions => other class; never accepts an incomplete text) computed by an independent stack recogniser",
+		"sequences":  n,
+		"max_length": maxLen,
+		"alphabet":   "( ) [ ] { } #{ « » ' ^ atom",
+		"mismatches": len(fails),
+	}
+	for _, f := range fails {
+		c.machineryErrors = append(c.machineryErrors, "C16 grammar disagrees with the statement: "+f)
+	}
 	c.assumptions["A-SCAN: text -> tokens is the third-party scanner; brackets inside strings, raw strings and comments are not tokens (assumed)"] = true
 	c.assumptions["A-FIX(reader): rfC/rfP are the class and end position of reading one form; recursive calls are assumed to return them, each function is checked for one unfolding (rfStep)"] = true
-	c.assumptions["the statement's characterisation (completable by closers <=> EOF class naming the innermost closer; complete => never EOF class) is read off the grammar rfStep/rlC; it is not proved as a lemma over all token sequences"] = true
+	c.assumptions["the statement's characterisation is checked against the grammar rfStep/rlC for every token sequence up to length 6 (7 in the thorough tier) over the bracket alphabet (bounded, spec level; the Go transcription of the grammar in c16lemma.go mirrors the contract file by hand)"] = true
 	c.assumptions["Read_str returns read_form's error class for the whole token array (assert-at obligations) and reports left-over tokens with a different message; that READ is Read_str without placeholder table is visible in its one-line body; Go-constructor forms («…») are classified only while their bracket is open (a constructor may return any error)"] = true
 	c.assumptions["tokens are never modified after tokenize (preserves clauses on the reader functions, assumed at call sites)"] = true
 }
